@@ -14,8 +14,11 @@ limitations under the License.
 package metadata
 
 import (
+	"errors"
 	"fmt"
 	"reflect"
+	"strconv"
+	"strings"
 
 	"github.com/mitchellh/mapstructure"
 	"github.com/spf13/cast"
@@ -51,6 +54,33 @@ func (q *ByteSize) GetBytes() (int64, error) {
 	return val, nil
 }
 
+// maxQuantityExponent bounds the decimal exponent ("e<n>" / "E<n>") accepted in a quantity.
+// A size in bytes that fits an int64 needs at most 18; the limit leaves ample room for fractions.
+const maxQuantityExponent = 1000
+
+// exponentTooLarge reports whether str ends with a decimal exponent whose absolute value exceeds maxQuantityExponent.
+func exponentTooLarge(str string) bool {
+	i := strings.LastIndexAny(str, "eE")
+	if i < 0 || i == len(str)-1 {
+		return false
+	}
+	digits := str[i+1:]
+	if digits[0] == '+' || digits[0] == '-' {
+		digits = digits[1:]
+	}
+	if digits == "" {
+		return false
+	}
+	for _, c := range digits {
+		if c < '0' || c > '9' {
+			// Not a decimal exponent (e.g. the binary suffix "Ei"): let the parser decide
+			return false
+		}
+	}
+	n, err := strconv.Atoi(digits)
+	return err != nil || n > maxQuantityExponent
+}
+
 func toByteSizeHookFunc() mapstructure.DecodeHookFunc {
 	bytesizeType := reflect.TypeOf(ByteSize{})
 	bytesizePtrType := reflect.TypeOf(&ByteSize{})
@@ -78,6 +108,10 @@ func toByteSizeHookFunc() mapstructure.DecodeHookFunc {
 		}
 
 		// Parse as quantity
+		// resource.ParseQuantity computes 10^|exponent| exactly: "1e-999999999" would keep it busy (and allocating) for hours
+		if exponentTooLarge(str) {
+			return nil, errors.New("value is not a valid quantity: exponent out of range")
+		}
 		q, err := resource.ParseQuantity(str)
 		if err != nil {
 			return nil, fmt.Errorf("value is not a valid quantity: %w", err)
